@@ -1,10 +1,10 @@
 #!/bin/bash
-# usage: seed_own.sh <VERIF_SEED>   -- for every seeded change, run only the check of the property it was
+# usage: seed_own.sh <VERIF_SEED> [glob fragment]   -- for every seeded change, run only the check of the property it was
 # written against (or, if that one is known to be outside its quantifier, C03) at another seed; prints the
 # ones that stay silent.  Detection margin across seeds.
 export VERIF_SEED="${1:-2}"
 cd /verif
-for d in seeded/C*-*/; do
+for d in seeded/C*${2:-}*/; do
   n=$(basename $d); prop=${n%%-*}
   case "$n" in C01-3|C02-2|C02-5) prop=C03;; esac
   res=$(tools/seedrun.sh $d/patch.diff $prop 2>&1)
